@@ -1,6 +1,6 @@
 """C10 — stale or undecodable stored traces are skipped, never fatal.
 Engine E1+E4 (differential): stores populated directly with rows = every subset of valid rows x every subset (size <= 2,
-thorough <= 3) of 32 stale-row kinds x insertion orders, commands stub / stub -v / stub <qualname specifier> / apply;
+thorough <= 3) of 34 stale-row kinds x insertion orders, commands stub / stub -v / stub <qualname specifier> / apply;
 oracle: output equals the output obtained from the decodable rows alone, exit status 0, skipped rows counted exactly."""
 from __future__ import annotations
 
@@ -20,7 +20,7 @@ from mcheck.core.runner import VERIF, Ctx, Result, Violation
 
 ID = "C10"
 RULE = (
-    "rows = every subset of 4 valid rows x every subset of size 0..2 (thorough 0..3) of 32 stale kinds (module removed, "
+    "rows = every subset of 4 valid rows x every subset of size 0..2 (thorough 0..3) of 34 stale kinds (module removed, "
     "submodule removed, parent not a package, function removed / now int / class / settable property / property without "
     "getter / local scope, argument / return / yield class removed, class name bound to int / dict / None / instance, "
     "nested in generics and TypedDict fields, unknown parameter names) x 3 insertion orders x commands {stub, stub -v, "
@@ -72,6 +72,8 @@ STALE: Dict[str, Tuple[Tuple, bool, Optional[Tuple]]] = {
     "function-now-class": (row(M, "NowClass", {"a": INT}, INT), False, None),
     "function-now-settable-property": (row(M, "Cls.settable", {"self": T(M, "Cls")}, INT), False, None),
     "function-now-property-without-getter": (row(M, "Cls.nogetter", {"self": T(M, "Cls")}, INT), False, None),
+    "function-now-property-with-deleter": (row(M, "Cls.deletable", {"self": T(M, "Cls")}, INT), False, None),
+    "removed-parameter-with-removed-class": (row(M, "good1", {"zzz": T(M, "GoneClass"), "a": STR}, STR), False, None),
     "function-in-local-scope": (row(M, "outer.<locals>.inner", {"a": INT}, INT), False, None),
     "arg-class-removed": (row(M, "good1", {"a": T(M, "GoneClass")}, INT), False, None),
     "arg-class-module-removed": (row(M, "good1", {"a": T("stale_fx.gone", "C")}, INT), False, None),
@@ -153,7 +155,7 @@ def check_case(res: Result, ctx: Ctx, db: str, pkgdir: Path, vmask: int, kinds: 
     mcfg.reset(db=db, rewriter=NoOpRewriter())
     case_base = {"valid_mask": vmask, "kinds": list(kinds)}
     cmds: List[Tuple[str, List[str], str]] = [
-        ("stub", ["stub", M], M), ("stub-v", ["-v", "stub", M], M), ("stub-spec", ["stub", M + ":good"], M), ("stub-spec-cls", ["-v", "stub", M + ":Cls"], M),
+        ("stub", ["stub", M], M), ("stub-v", ["-v", "stub", M], M), ("stub-sample-count", ["stub", "--sample-count", M], M), ("stub-spec", ["stub", M + ":good"], M), ("stub-spec-cls", ["-v", "stub", M + ":Cls"], M),
     ]
     if do_apply:
         cmds += [("apply", ["apply", M], M), ("apply-v", ["-v", "apply", M], M)]
@@ -199,6 +201,12 @@ def check_case(res: Result, ctx: Ctx, db: str, pkgdir: Path, vmask: int, kinds: 
                 res.violate(Violation(ID, "output", f"{kindsig}", case, f"`{' '.join(argv)}` stdout differs from the decodable rows alone:\n--- got\n{out[:500]}\n--- want\n{rout[:500]}"))
             if after != rafter:
                 res.violate(Violation(ID, "applied-file", f"{kindsig}", case, f"`{' '.join(argv)}` left a different file than the decodable rows alone"))
+            if "--sample-count" in argv:
+                # what the stub is "based on" is the decodable traces and nothing else
+                cnt = sorted(l for l in err.splitlines() if l.startswith("Annotation for "))
+                rcnt = sorted(l for l in rerr.splitlines() if l.startswith("Annotation for "))
+                if cnt != rcnt:
+                    res.violate(Violation(ID, "report", f"sample-count:{kindsig}", case, f"`{' '.join(argv)}` reports {cnt}, the decodable rows alone give {rcnt}"))
             got_bad = count_failures(err, verbose)
             if got_bad != n_bad:
                 res.violate(Violation(ID, "report", f"count:{kindsig}", case, f"`{' '.join(argv)}` reported {got_bad} skipped traces, {n_bad} rows are undecodable; stderr: {err[-300:]}"))
